@@ -61,6 +61,33 @@ def lines_stream(ctx, n):
             ctx.disagree(f"C15:from_lines:components:{zero}", desc, [list(a), list(b)], comp[1:3] if comp[0] != "ok" else [np.round(np.asarray(x.array), 6).tolist() for x in comp[1]], replay=[desc])
 
 
+def complex_lines_stream(ctx, n):
+    """Conic.from_lines for two lines with complex coefficients (not conjugate to each other): degenerate, components = the pair"""
+    import geometer as g
+    rng = ctx.rng
+    for k in range(n):
+        a = np.array([complex(rng.randint(-2, 2), rng.randint(-2, 2)) for _ in range(3)])
+        b = np.array([complex(rng.randint(-2, 2), rng.randint(-2, 2)) for _ in range(3)])
+        if np.linalg.matrix_rank(np.stack([a, b])) < 2 or not (np.any(a.imag) or np.any(b.imag)):
+            continue
+        desc = f"from_lines complex {a.tolist()} {b.tolist()}"
+        ctx.case(desc)
+        ctx.count("from_lines:complex")
+        c = call_impl(lambda: g.Conic.from_lines(g.Line(a), g.Line(b)))
+        if c[0] != "ok":
+            ctx.disagree("C15:from_lines:complex:error", desc, "a degenerate conic", c[1:3], replay=[desc])
+            continue
+        A = np.asarray(c[1].array)
+        # every point of either line lies on the conic: x^T A x = 2 (a.x)(b.x)
+        xs = [np.cross(a, v) for v in (np.array([1, 2, 3.0]), np.array([0, 1, -1.0]))] + [np.cross(b, v) for v in (np.array([1, 2, 3.0]), np.array([2, 0, 1.0]))]
+        res = max(abs(x @ A @ x) / (np.linalg.norm(x) ** 2 * np.linalg.norm(A)) for x in xs if np.linalg.norm(x) > 0)
+        comp = call_impl(lambda: c[1].components)
+        ok = res <= 1e-9 and comp[0] == "ok" and len(comp[1]) == 2 and match_set([np.asarray(x.array) for x in comp[1]], [a, b], 1e-7)
+        if not ok:
+            ctx.disagree("C15:from_lines:complex", desc, [a.tolist(), b.tolist()],
+                         {"residual of points of the lines": float(res), "components": comp[1:3] if comp[0] != "ok" else [np.round(np.asarray(x.array), 6).tolist() for x in comp[1]]}, replay=[desc])
+
+
 def planes_stream(ctx, n):
     import geometer as g
     from geometer.curve import Quadric
@@ -261,6 +288,7 @@ def touching_stream(ctx, n):
 
 
 def correspondence(ctx):
+    complex_lines_stream(ctx, ctx.budget(50, 500))
     touching_stream(ctx, ctx.budget(30, 300))
     moved_stream(ctx, ctx.budget(40, 400))
     lines_stream(ctx, ctx.budget(300, 0))
